@@ -1157,6 +1157,8 @@ class Gen:
                     [("default", [] if r.random() < 0.2 else [("pos", ("str", "D"))])])
         msg = r.choice(["hello", "{0.__class__}", "{x.secret} {x.__class__}", "{secret}"])
         kw = [("kw", "x", self.path(lo=0))] if r.random() < 0.6 else []
+        if r.random() < 0.15:
+            kw.append(("kw", "context", self.path(lo=0)))     # a reserved name: LiquidTypeError
         return (("str", msg) if r.random() < 0.7 else self.path(), [(r.choice(["t", "gettext"]), kw)])
 
     def stmt(self, depth: int) -> list:
@@ -1276,6 +1278,7 @@ def _swap(spec: tuple) -> tuple:
 # running the implementation
 
 PARTIALS = {
+    "tp": "{{ 'x' | t }}{% translate %}y{% endtranslate %}",
     "p": "<{{ x }}|{{ v }}|{{ x.secret }}|{{ v.secret }}|{{ x.__class__ }}>",
     "secret": "<partial named secret>",
     "__class__": "<partial named __class__>",
@@ -1305,8 +1308,14 @@ _ENVS: dict[tuple, Any] = {}
 UNDEFS = ("default", "debug", "strict", "falsy")
 
 
-def make_env(shopify: bool = False, auto_escape: bool = False, undef: str = "default") -> Any:
-    key = (shopify, auto_escape, undef)
+CFGS = ("std", "novalidate", "alt")
+
+
+def make_env(shopify: bool = False, auto_escape: bool = False, undef: str = "default", cfg: str = "std") -> Any:
+    """cfg: 'std' | 'novalidate' (validate_filter_arguments=False, the documented switch for
+    lazily registered filters) | 'alt' (the other documented switches: shorthand_indexes,
+    suppress_blank_control_flow_blocks off, the three resource limits set, no validation)."""
+    key = (shopify, auto_escape, undef, cfg)
     if key not in _ENVS:
         from liquid2 import DictLoader
         from liquid2 import undefined as U
@@ -1316,7 +1325,15 @@ def make_env(shopify: bool = False, auto_escape: bool = False, undef: str = "def
             from liquid2.shopify import Environment
         else:
             from liquid2 import Environment
-        env = Environment(loader=DictLoader(PARTIALS), auto_escape=auto_escape, undefined=ucls)
+        if cfg == "alt":
+            class Environment(Environment):  # type: ignore[no-redef]
+                shorthand_indexes = True
+                suppress_blank_control_flow_blocks = False
+                loop_iteration_limit = 10 ** 7
+                local_namespace_limit = 10 ** 9
+                output_stream_limit = 10 ** 8
+        env = Environment(loader=DictLoader(PARTIALS), auto_escape=auto_escape, undefined=ucls,
+                          validate_filter_arguments=(cfg == "std"))
         for name, f in list(env.filters.items()):
             env.filters[name] = Rec(f, name)
         _ENVS[key] = env
@@ -1327,10 +1344,11 @@ _LOOP: Any = None
 
 
 def run_impl(src: str, data: list[tuple[str, tuple]], *, async_: bool = False,
-             shopify: bool = False, auto_escape: bool = False, undef: str = "default") -> tuple:
+             shopify: bool = False, auto_escape: bool = False, undef: str = "default",
+             cfg: str = "std") -> tuple:
     """('ok', text) | ('err', class name, message).  Logs are left in LOG."""
     global _LOOP
-    env = make_env(shopify, auto_escape, undef)
+    env = make_env(shopify, auto_escape, undef, cfg)
     memo: dict[int, Any] = {}
     pydata = {k: build(v, memo) for k, v in data}
     LOG.clear()
@@ -1448,10 +1466,14 @@ def explicit_repr_calls(repo_liquid2: str) -> list[str]:
     return out
 
 
-def check_logs(repo_liquid2: str) -> list[tuple[str, str]]:
-    """(signature, description) for every oracle failure visible in LOG."""
+def check_logs(repo_liquid2: str, exempt: frozenset[str] = frozenset()) -> list[tuple[str, str]]:
+    """(signature, description) for every oracle failure visible in LOG.
+    exempt: attribute / method names that are documented protocol for this run
+    (the Translations methods of an application-supplied `translations`)."""
     bad: list[tuple[str, str]] = []
     for name, filename, lineno, kind in LOG.attr:
+        if name in exempt:
+            continue
         if (name in MAPPING_ONLY and kind != "mapping") or (name in SEQUENCE_ONLY and kind != "sequence"):
             bad.append(("mixin-name-read-on-non-collection",
                         f"attribute {name!r} of a {kind} object (not a "
@@ -1483,6 +1505,8 @@ def check_logs(repo_liquid2: str) -> list[tuple[str, str]]:
         elif name not in CPYTHON_READS:
             bad.append(("attribute-read-by-library", f"attribute {name!r} read at {filename}:{lineno}"))
     for c in LOG.calls:
+        if c.split(":", 1)[-1] in exempt:
+            continue
         bad.append(("method-called", f"{c} of a context object was called"))
     explicit = explicit_repr_calls(repo_liquid2)
     for e in explicit:
@@ -1655,7 +1679,7 @@ def kernel_a_items(thorough: bool) -> list[dict[str, Any]]:
                 if L == lens[0] and i == 0:
                     t2 = f"match forloop_getattr {rec} {cq(n)} with Some _ => true | None => false end"
                     add(f"Bool.eqb ({t2}) {C.cbool(hasattr(fl, n))}", t2, f"hasattr(ForLoop, {n!r})", str(hasattr(fl, n)))
-    for L in lens:
+    for L in (lens if thorough else (3,)):
         for ncols in ((1, 2) if not thorough else (1, 2, 3)):
             tr = TableRow("x-a", iter(range(L)), L, ncols)
             for k in range(0, L + 1):
@@ -1667,7 +1691,7 @@ def kernel_a_items(thorough: bool) -> list[dict[str, Any]]:
                     exp = _c_fres(lambda tr=tr, n=n: tr[n], parent)
                     t = f"tablerow_getitem {st} {cq(n)}"
                     add(f"fval_res_eqb ({t}) {exp}", t, f"TableRow(length={L}, ncols={ncols}) after {k} steps [{n!r}]", exp)
-                    if L == lens[0] and ncols == 1 and k == 1:
+                    if L == (lens[0] if thorough else 3) and ncols == 1 and k == 1:
                         t2 = f"match tablerow_getattr {st} {cq(n)} with Some _ => true | None => false end"
                         add(f"Bool.eqb ({t2}) {C.cbool(hasattr(tr, n))}", t2, f"hasattr(TableRow, {n!r})", str(hasattr(tr, n)))
     env = Environment()
@@ -2061,7 +2085,49 @@ WITNESS_TRANSLATIONS = [
 # ----------------------------------------------------------------------------
 # main
 
-KNOWN_SIGS = set(KNOWN_LITERALS.values()) | {REPR_SIG, KWARG_SIG}
+KNOWN_SIGS = set(KNOWN_LITERALS.values()) | {REPR_SIG}
+TR_SIG = "translations-provider-rebindable-by-template"
+TR_METHODS = frozenset({"gettext", "ngettext", "pgettext", "npgettext"})
+MAGIC_NAMES = ["locale", "input_locale", "timezone", "input_timezone", "currency_code", "currency_format",
+               "datetime_format", "decimal_format", "decimal_quantization", "unit_length", "unit_format"]
+TR_TEMPLATES = ["{{ 'x' | t }}", "{{ 'x' | gettext }}", "{{ 'x' | ngettext: 'y', 2 }}", "{{ 'x' | pgettext: 'c' }}",
+                "{{ 'x' | npgettext: 'c', 'y', 2 }}", "{{ 'x' | t: 'c', plural: 'y', count: 2 }}",
+                "{% translate %}x{% endtranslate %}", "{% translate count: 2 %}a{% plural %}b{% endtranslate %}",
+                "{% render 'tp' %}|{% include 'tp' %}"]
+MAGIC_TEMPLATES = ["{{ 1234.5 | currency }}", "{{ 1234.5 | money }}", "{{ '1,5' | decimal }}", "{{ 0 | datetime }}",
+                   "{{ 0 | datetime: format: 'short' }}", "{{ 12 | unit: 'length-meter' }}",
+                   "{{ 1 | money_with_currency }}", "{{ 1 | decimal: group_separator: false }}",
+                   "{{ 0 | date: '%Y' }}", "{{ 'x' | t }}"]
+
+
+def magic_stream(oracle_run: Any, known_as: list, g: "Gen", r: Any, thorough: bool) -> None:
+    """`translations` and the babel filters' variables, bound to context objects."""
+    provider = hook_obj(50, [(m, ("call", "TR")) for m in sorted(TR_METHODS)] + [("secret", ("val", ("str", SENT)))])
+    thief = hook_obj(51, [(m, ("call", SENT + "c")) for m in sorted(TR_METHODS)] + [("secret", ("val", ("str", SENT)))])
+    plain = g.obj(1)
+    # (i) supplied by the application as render data: the documented Translations protocol --
+    # its four methods may be called, nothing else of it may be touched
+    for src in TR_TEMPLATES:
+        for prov in (provider, plain):
+            oracle_run(src, [("translations", prov), ("o", thief)], exempt=TR_METHODS, differential=prov is plain,
+                       names={"translations"})
+    # (ii) bound by the template: known finding
+    known_as[0] = TR_SIG
+    binders = ["{{% assign translations = o %}}{0}", "{{% for translations in l %}}{0}{{% endfor %}}",
+               "{{% with translations: o %}}{0}{{% endwith %}}", "{{% capture translations %}}{{{{ o }}}}{{% endcapture %}}{0}",
+               "{{% assign translations = l | first %}}{0}", "{{% render 'tp', translations: o %}}",
+               "{{% include 'tp', translations: o %}}", "{{% include 'tp' with o as translations %}}"]
+    for b in binders:
+        for src in (TR_TEMPLATES if thorough else TR_TEMPLATES[::3]):
+            oracle_run(b.format(src), [("o", thief), ("l", ("list", [thief]))], differential=False, names={"translations"})
+    known_as[0] = None
+    # (iii) the babel filters' variables: as render data and bound by the template
+    objs = [plain, g.obj(1, "mapping"), g.obj(1, "sequence"), thief]
+    for i, name in enumerate(MAGIC_NAMES):
+        o = objs[i % len(objs)]
+        for src in (MAGIC_TEMPLATES if thorough else MAGIC_TEMPLATES[i % 2::2]):
+            oracle_run(src, [(name, o)], names={name})
+            oracle_run(f"{{% assign {name} = o %}}" + src, [("o", o)], names={name})
 
 
 def main(chk: C.Check, build: C.Build) -> None:
@@ -2095,11 +2161,12 @@ def main(chk: C.Check, build: C.Build) -> None:
         return {a: oracle_one(src, data, async_=a, **kw) for a in (False, True)}
 
     def oracle_one(src: str, data: list[tuple[str, tuple]], *, async_: bool = False, shopify: bool = False,
-                   auto_escape: bool = False, undef: str = "default", names: set[str] | None = None,
-                   differential: bool = True) -> tuple:
+                   auto_escape: bool = False, undef: str = "default", cfg: str = "std",
+                   names: set[str] | None = None, differential: bool = True,
+                   exempt: frozenset[str] = frozenset()) -> tuple:
         """Render on the implementation and evaluate the direct oracles."""
         nonlocal evaluations
-        kw = dict(async_=async_, shopify=shopify, auto_escape=auto_escape, undef=undef)
+        kw = dict(async_=async_, shopify=shopify, auto_escape=auto_escape, undef=undef, cfg=cfg)
         out = run_impl(src, data, **kw)
         evaluations += 1
         dist["oracle_renders"] += 1
@@ -2118,7 +2185,7 @@ def main(chk: C.Check, build: C.Build) -> None:
             report("secret-in-output" if explicit_repr_calls(pkg) or not LOG.reprs else REPR_SIG,
                    f"what __repr__ of a context object returns appears in the "
                    f"{'output' if out[0] == 'ok' else 'error message'}: {out[1:]!r:.200}", rp)
-        for sig, what in check_logs(pkg):
+        for sig, what in check_logs(pkg, exempt):
             report(sig, what, rp)
         if names is not None and touched:
             objs: dict[int, dict] = {}
@@ -2138,7 +2205,7 @@ def main(chk: C.Check, build: C.Build) -> None:
                 report("secret-in-output" if explicit_repr_calls(pkg) or not LOG.reprs else REPR_SIG,
                        f"what __repr__ of a context object returns appears in the output: {out2[1:]!r:.200}",
                        dict(rp, data=d2, implementation=out2))
-            for sig, what in check_logs(pkg):
+            for sig, what in check_logs(pkg, exempt):
                 report(sig, what, dict(rp, data=d2, implementation=out2))
             if canon(out) != canon(out2):
                 report("differential", f"data differing only in Python attributes render differently: {canon(out)!r:.120} vs {canon(out2)!r:.120}",
@@ -2168,12 +2235,20 @@ def main(chk: C.Check, build: C.Build) -> None:
         chk.finding(REPR_SIG, f"{{{{ d }}}} for a dict holding an object prints repr(obj), not str(obj): {out[1]!r:.80}",
                     {"source": "{{ d }}", "data": [("d", ("dict", [("k", ro)]))], "implementation": out})
 
-    ko = hook_obj(1, [("secret", ("val", ("str", SENT)))])
-    out = run_impl("{{ 'x' | t: context: o }}", [("o", ko)])
-    if any(n in ("env", "resolve", "extend") for n, *_ in LOG.attr):
-        chk.finding(KWARG_SIG, "{{ 'x' | t: context: o }} hands the template's o to the filter in place of the render "
-                    f"context: the filter reads {sorted({n for n, *_ in LOG.attr if not n.startswith('__')})} of o ({out[1]})",
-                    {"source": "{{ 'x' | t: context: o }}", "data": [("o", ko)], "implementation": out})
+    # fixed in a1c4a1d: the recorded witness must stay fixed, whatever the configuration
+    ko = hook_obj(1, [("secret", ("val", ("str", SENT))), ("auto_escape", ("val", ("bool", True)))])
+    for wsrc in ("{{ 'x' | t: context: o }}", "{{ 'x' | escape: environment: o }}", "{{ l | join: ',', environment: o }}",
+                 "{{ 'x' | url_encode: environment: o }}", "{{ 1 | date: '%Y', environment: o }}",
+                 "{{ l | where: 'a', context: o }}"):
+        for cfg in CFGS:
+            for a in (False, True):
+                out = run_impl(wsrc, [("o", ko), ("l", ("list", [("str", "a")]))], async_=a, cfg=cfg)
+                evaluations += 1
+                reads = sorted({n for n, *_ in LOG.attr if not n.startswith("__")})
+                if reads or out[:2] != ("err", "LiquidTypeError"):
+                    report(KWARG_SIG, f"{wsrc} (environment {cfg}, {'async' if a else 'sync'}) hands the template's o to the "
+                           f"filter in place of the injected argument: reads {reads}, outcome {out[:2]}",
+                           {"source": wsrc, "cfg": cfg, "async": a, "data": [("o", ko)], "implementation": out})
 
     # -- 1. the getattr-by-name drops ------------------------------------------
     ka = kernel_a_items(thorough)
@@ -2202,7 +2277,7 @@ def main(chk: C.Check, build: C.Build) -> None:
         evaluations += 2
         n_hook += 1
         items.append(model_item2(prog, data, outs, src, drefs[id(data)]))
-    n_rand = 600 if not thorough else 8000
+    n_rand = 500 if not thorough else 8000
     for i in range(n_rand):
         data = g.data()
         prog = g.program(data)
@@ -2237,18 +2312,22 @@ def main(chk: C.Check, build: C.Build) -> None:
         if thorough or i % 2 == seed_parity:
             oracle_run(src, hd, undef=UNDEFS[i % 4], names=set(re.findall(r"[A-Za-z_][A-Za-z0-9_]*", src)))
     # keyword arguments named like the parameters the library injects, on every registered filter
-    known_as[0] = KWARG_SIG
+    # (fixed in a1c4a1d; run under every environment configuration: a guard that only runs
+    # at parse time is skipped by validate_filter_arguments=False)
     fenv = make_env(True, False)
     for rnd in range(1 if not thorough else 4):
         kdata = g.data() + special_objs(g)
         kv = [k for k, _ in kdata]
-        for fname in sorted(fenv.filters):
+        for fi, fname in enumerate(sorted(fenv.filters)):
             v, w = r.choice(kv), r.choice(kv)
-            for src in (f"{{{{ {v} | {fname}: context: {w} }}}}", f"{{{{ {v} | {fname}: environment: {w} }}}}",
-                        f"{{{{ {v} | {fname}: 'a', context: {w}, environment: {v} }}}}",
-                        f"{{{{ 'a' | {fname}: {v}, environment: {w}.secret, context: nil }}}}"):
-                oracle_run(src, kdata, shopify=True, names={"context", "environment"})
-    known_as[0] = None
+            shapes = (f"{{{{ {v} | {fname}: context: {w} }}}}", f"{{{{ {v} | {fname}: environment: {w} }}}}",
+                      f"{{{{ {v} | {fname}: 'a', context: {w}, environment: {v} }}}}",
+                      f"{{{{ 'a' | {fname}: {v}, environment: {w}.secret, context: nil }}}}")
+            for si, src in enumerate(shapes):
+                for cfg in (CFGS if thorough else (CFGS[(fi + si + seed_parity) % 3], "novalidate")):
+                    oracle_run(src, kdata, shopify=True, cfg=cfg, names={"context", "environment"})
+    # variable names the library itself looks up: bound to instrumented objects
+    magic_stream(oracle_run, known_as, g, r, thorough)
     dd = duck_data()
     for src, shop in duck_templates():
         for ae in (False, True):
@@ -2271,7 +2350,7 @@ def main(chk: C.Check, build: C.Build) -> None:
         for src, shop in tt:
             ae = r.random() < 0.3
             outs = oracle_run(src, data, shopify=shop, auto_escape=ae, undef=r.choice(UNDEFS),
-                              names=set(re.findall(r"[A-Za-z_][A-Za-z0-9_]*", src)))
+                              cfg=r.choice(CFGS), names=set(re.findall(r"[A-Za-z_][A-Za-z0-9_]*", src)))
             if i == 0 and len(samples) < 6:
                 samples.append({"source": src, "data": "(generated)", "outcome_sync": outs[False][:2],
                                 "outcome_async": outs[True][:2]})
